@@ -56,7 +56,7 @@ public:
   ArrayRef<double> DRay() override;
   /// C09: alternative solutions (sol:stub / sol:count; script line `altsol N`) and model export
   /// (tech:writemodel / tech:writemodelonly): only active when these options / script lines are used
-  ALLOW_STD_FEATURE(MULTISOL, true)
+  /// (MULTISOL is already allowed above)
   ALLOW_STD_FEATURE(WRITE_PROBLEM, true)
   void DoWriteProblem(const std::string &name) override;
   ALLOW_STD_FEATURE(IIS, true)
